@@ -260,7 +260,7 @@ func (r *RootAssertionNode) ParseExprAsProducer(expr ast.Expr, doNotTrack bool) 
 
 		// the cases of a function and method call are different enough here that it would be useless
 		// to try to subsume this switch with funcIdentFromCallExpr
-		switch fun := expr.Fun.(type) {
+		switch fun := ast.Unparen(expr.Fun).(type) {
 		case *ast.Ident: // direct function call
 			// Handle specially if the function is an anonymous function.
 			if r.functionContext.functionConfig.EnableAnonymousFunc {
